@@ -57,7 +57,12 @@ def _run_case(case):
         ok, out = lib(fwd, torch.tensor(inp, dtype=tdt))
         if not ok:
             return r.fail(out.bucket, 'forward raised: %s' % out)
-        ok, rec = lib(inv, (out[0], list(out[1])))
+        if name == 'dense':
+            # another image goes through the same forward module before the first pyramid is inverted (what image
+            # fusion does): the pyramid already returned must not be touched
+            r.label('interleaved_forward_call')
+            lib(fwd, torch.tensor(inp[..., ::-1, :].copy() * 0.5 + 1.0, dtype=tdt))
+        ok, rec = lib(inv, (out[0], out[1]))
         if not ok:
             return r.fail(rec.bucket, 'inverse raised on the output of forward: %s' % rec)
         if tuple(rec.shape) != tuple(inp.shape[:2]) + (He, We):
